@@ -141,7 +141,7 @@ var codecByName = map[string]*codec{}
 var modelledCodecs = map[string]bool{}
 
 func init() {
-	for _, n := range strings.Fields("witness cond rule signer attr tx header0 header1 block0 block1 stateroot extensible") {
+	for _, n := range strings.Fields("witness cond rule signer attr tx header0 header1 block0 block1 stateroot extensible item itemprot mptnode " + os.Getenv("WIRE_MODELLED")) {
 		modelledCodecs[n] = true
 	}
 }
